@@ -158,6 +158,8 @@ WorldSpec gen_world(const std::string& prop, uint64_t run_seed, const GenOpts& o
         {
             w.mclass = M_SPARSEPAT;
             if (w.n < 30 && r2.chance(0.5)) w.n = 30 + (int) r2.below((uint64_t) (nmax - 29));
+            // sparsity level (`rank` field of a sparse-pattern world): about 1..3 off-diagonal entries per row
+            if (w.family != F_GENRSHIFT && r2.chance(0.7)) w.rank = 1 + (int) r2.below(3);
         }
     }
     if (w.family == F_GCHOL || w.family == F_GREGINV)
